@@ -429,6 +429,19 @@ def generate(ctx):
         a = U.rand_divisions(rng, rng.randint(1, 6), 0, rng.choice([6, 12, 30]))
         force = rng.random() < 0.35
         yield "div_layer", {"a": a, "b": _rand_new_divs(rng, a, force), "force": force}
+    # force with new divisions starting several entries BELOW the old ones (temporary divisions must stay sorted;
+    # defect repaired in 5d1a6bb), old frames as small as a single label (x, x)
+    for _ in range(ctx.n(60, 1500)):
+        x = rng.randint(2, 12)
+        a = [x, x] if rng.random() < 0.4 else sorted(rng.sample(range(x, x + 9), rng.randint(2, 4)))
+        if rng.random() < 0.3 and len(a) >= 2:
+            a = a + [a[-1]]
+        below = sorted(rng.sample(range(0, a[0]), rng.randint(1, min(3, a[0]))))
+        inner = sorted(v for v in set(rng.sample(range(a[0], a[-1] + 1), rng.randint(0, min(3, a[-1] - a[0] + 1)))) if v not in (a[-1],))
+        b = below + [v for v in inner if v not in below] + [a[-1]] + ([a[-1]] if rng.random() < 0.5 else [])
+        if len(set(b[:-1])) != len(b[:-1]) or b != sorted(b):
+            continue
+        yield "div_layer", {"a": a, "b": b, "force": True}
     if ctx.thorough():
         # exhaustive small space for the divisions walk and its certificate: every legal division vector over 0..4
         # (strictly increasing, optionally with a repeated last entry) as old AND as new divisions, force on/off
